@@ -198,6 +198,10 @@ class SimSocket(object):
         if self.server.fail_send_after is not None and self.nsend > self.server.fail_send_after:
             raise BrokenPipeError(32, 'Broken pipe')
         self.server.sends.append(bytes(data))
+        cb = getattr(self.server, 'on_first_frame', None)
+        if cb is not None and len(self.server.sends) == 2:
+            self.server.on_first_frame = None
+            cb(b''.join(self.server.sends))
         self.net.log.append(('send', self.server.index, bytes(data)))
         return len(data)
 
